@@ -26,6 +26,7 @@ func init() {
 		Explanation: "R1 co-update (loop-header φ comparison in the path evaluator — the function of package parsepath that ranges over a protopath.Path and moves a protoreflect.Value cursor): on every path round the loop, if the value cursor changes then the descriptor cursor changes too (a step may retarget the descriptor without moving the value, never the reverse). " +
 			"R3 exhaustiveness: the evaluator's step-kind switch covers every protopath.StepKind constant; the parser's token switch covers every token-kind constant of the package except those compared elsewhere (end of input) and has an error default; ParsePath returns a path only on a path dominated by the end-of-input test and a true state predicate. " +
 			"R5 raw renderings: InspectPayload / InspectSignature hand the field bytes (same access path as the endorsement field) to WriteBytesForm, and WriteBytesForm's raw arm writes its parameter itself. " +
+			"R5b the Form field of the inspection options is never written outside construction (the byte form is an input of each rendering, not state carried from one writer to the next). " +
 			"R6 numeral agreement (siblings): every strconv conversion of the stored text of a number token (list index, each map-key kind) reads it in the same base, so one spelling denotes one number whatever the step kind. " +
 			"R7 parse width: the bit size given to strconv.ParseInt/ParseUint for a number literal (a constant, or a small helper evaluated for the key kind of the enclosing switch arm) is not larger than the integer type the result is converted to, so out-of-range literals are refused rather than truncated. " +
 			"R8 cursor kind (ESP on the evaluator): Value.List() only after IsList() was true, Value.Map() only after IsMap() was true, Value.Message() only where the descriptor cursor is not a field descriptor or is a field known to be neither list nor map — these conversions panic on a mismatch. " +
@@ -299,6 +300,39 @@ func runC19(c *Ctx) {
 		c.S.Floor("R8", "kind conversions of the value cursor in "+load.FuncName(ev), 3, nConv)
 		if n == 0 {
 			c.S.OK("R8", load.FuncName(ev)+":cursor kind", c.pos(ev.Pos()), fmt.Sprintf("every Value.Message/List/Map call follows the matching descriptor test (%d configurations)", e.Configs), true)
+		}
+	}
+
+	// ---- R5b: the byte form of a rendering is an input, not state ----
+	// No production function stores into the Form field of gcetcbendorsement.Inspect (the options value is shared by
+	// successive inspections; an "auto" form resolved once for one writer would be applied to the next writer, and a
+	// non-terminal destination would receive base64 text instead of the field bytes).
+	{
+		nForm := 0
+		for _, f := range c.P.RepoFunctions() {
+			if c.isTestFunc(f) || !strings.HasPrefix(load.RelPkg(f), "gcetcbendorsement") {
+				continue
+			}
+			for _, b := range f.Blocks {
+				for _, in := range b.Instrs {
+					st, ok := in.(*ssa.Store)
+					if !ok {
+						continue
+					}
+					fa, ok := st.Addr.(*ssa.FieldAddr)
+					if !ok || !flow.IsFieldLoad(fa, gcePkg, "Inspect", "Form") {
+						continue
+					}
+					if al, isAl := fa.X.(*ssa.Alloc); isAl && al.Comment == "complit" {
+						continue // construction
+					}
+					nForm++
+					c.S.Bad("R5b", load.FuncName(f)+":writes Inspect.Form", c.pos(st.Pos()), "the inspection options' byte form is overwritten during an inspection: the form chosen for one writer sticks for the next, so raw output to a non-terminal can become base64 text")
+				}
+			}
+		}
+		if nForm == 0 {
+			c.S.OK("R5b", "gcetcbendorsement.Inspect.Form:read-only", "", "no store to Inspect.Form outside construction", true)
 		}
 	}
 
